@@ -207,6 +207,12 @@ MODELS = {}        # id(callable) -> (callable, model)
 METHOD_MODELS = {}  # (type, name) -> model(interp, self, *args, **kw)
 
 
+def harness(f):
+    """mark a function defined in a contract file as harness code to be interpreted"""
+    f._pyvc_harness = True
+    return f
+
+
 def model(*targets):
     def deco(f):
         for t in targets:
@@ -276,7 +282,7 @@ class Interp:
                     raise RaiseSig(e)
         if isinstance(f, types.FunctionType):
             mod = f.__module__ or ""
-            if mod.startswith(REPO_PKG):
+            if mod.startswith(REPO_PKG) or getattr(f, "_pyvc_harness", False):
                 return self.call_real(f, args, kwargs)
         if isinstance(f, type):
             if f.__module__.startswith(REPO_PKG):
